@@ -47,3 +47,12 @@ func VerifC03FrameFit() {
 	zzverif.Assert(enc+300 <= 10240, "C03.fit.default-packet-fits-frame")
 	zzverif.Reach("C03.fit.done")
 }
+
+// VerifSelfUDP: translator validation kernel.
+func VerifSelfUDP() {
+	for _, s := range []string{"", "a", "ab", "abc", "hello world", "\x00\xff\x80\x7f"} {
+		m := NewUDPPacket([]byte(s), nil, nil)
+		b, err := GetContent(m)
+		zzverif.Observe("b64", m.Content, string(b) == s, err != nil)
+	}
+}
